@@ -114,6 +114,25 @@ def check(model: Model, run: Run) -> None:
                     root, key = _chain_root_and_first_key(t)
                     if root in aa:
                         removal_bad = removal_bad or (n, key)
+        # a whole attribute group taken out of the queue (and put back): the groups are emitted in dict order, so this
+        # moves every prefix queued under these attributes behind announces that were queued after them
+        moved = [
+            n
+            for n in walk_no_nested(fi.node)
+            if (isinstance(n, ast.Call) and isinstance(n.func, ast.Attribute) and n.func.attr in ('pop', 'popitem', 'move_to_end') and dotted(n.func.value) in aa)
+            or (isinstance(n, ast.Delete) and any(isinstance(t, ast.Subscript) and dotted(t.value) in aa for t in n.targets))
+        ]
+        # dropping a group that has just become empty moves nothing
+        moved = [n for n in moved if not any((not pol) and any(a in norm(t) for a in aa) or (pol and norm(t).startswith('not ') and any(a in norm(t) for a in aa)) for t, pol in flat_guards(fi.node, n))]
+        if moved:
+            run.violation(
+                fi.qualname,
+                'an attribute group is taken out of the announce queue: %s' % norm(moved[0])[:70],
+                fi.loc(moved[0]),
+                'updates() emits the groups of _new_attr_af_nlri in insertion order and a group holds EVERY prefix queued under '
+                'those attributes; removing and re-inserting the group sends all of them after groups queued later, so an older '
+                'announce of a prefix (still filed in this group) overtakes its replacement: the peer ends on the stale route',
+            )
         where = fi.loc(touches[0])
         if removal_ok is not None and removal_bad is None:
             run.ok('%s: stale group entry removed' % short(fi.qualname), norm(removal_ok)[:90])
@@ -417,6 +436,15 @@ def check(model: Model, run: Run) -> None:
     run.check(all(r.lineno > last_cmp for r in true_rets), ic.qualname, 'no `return True` before the comparisons', ic.loc(true_rets[0]) if true_rets else ic.loc(), 'no early "already sent" answer')
     run.check(len(cvars) == 1, ic.qualname, 'looked up in self._seen by route.index()', ic.loc(), 'lookup key must be the route index')
 
+    # ------------------------------------------------------------------ R10 withdraws are held back for the first batch only
+    run.rule(
+        'C04.R10',
+        'withdraws are left out of the first batch of a session only: the sender starts with include_withdraw False, the '
+        'end of a batch sets it to True, and no update generator is created after the end of a batch with the old value',
+        floor=3,
+    )
+    _r10_first_batch(model, run, folder)
+
     # ------------------------------------------------------------------ R7 add_to_rib
     run.rule('C04.R7', 'add_to_rib queues unless the identical route is cached and force is false; del_from_rib hands the route\'s own nlri/attributes/index to the shared removal', floor=1)
     a = model.func(RIB + '.add_to_rib')
@@ -469,3 +497,80 @@ def check_thorough(model: Model, run: Run) -> None:
         run.violation(fi.qualname, norm(x)[:80], fi.loc(x), 'a RIB table is written outside exabgp/rib/')
     if not bad:
         run.ok('%d writes, all inside exabgp/rib/' % n)
+
+
+# ---------------------------------------------------------------------------------------------- R10
+def _r10_first_batch(model: Model, run: Run, folder: Folder) -> None:
+    from ..cfg import handler_names
+
+    gens = [q for q in model.funcs if q.endswith('Protocol.new_update_generator')]
+    if not gens:
+        run.cannot('Protocol.new_update_generator vanished')
+        return
+    senders = [f for f in model.funcs.values() if any(isinstance(c, ast.Call) and set(model.callees(f.module, c)) & set(gens) for c in walk_no_nested(f.node))]
+    if not senders:
+        run.cannot('no caller of Protocol.new_update_generator found')
+        return
+    for f in senders:
+        run.analysed(f)
+        cfg = CFG(f.node)
+        calls = [c for c in walk_no_nested(f.node) if isinstance(c, ast.Call) and set(model.callees(f.module, c)) & set(gens)]
+        handlers = [h for n in walk_no_nested(f.node) if isinstance(n, ast.Try) for h in n.handlers if set(handler_names(h)) & {'StopAsyncIteration', 'StopIteration'}]
+        run.check(bool(handlers), f.qualname, 'the end of a batch is observed (StopAsyncIteration arm)', f.loc(), 'the sender must notice that a batch is finished')
+        for c in calls:
+            arg = c.args[0] if c.args else None
+            if isinstance(arg, ast.Constant):
+                run.check(arg.value is True or not handlers, f.qualname, 'generator created with a constant %r' % arg.value, f.loc(c), 'a constant False would hold withdraws back for ever')
+                continue
+            if not isinstance(arg, ast.Name):
+                run.cannot('%s: argument of new_update_generator is not a name: %s' % (short(f.qualname), norm(c)))
+                continue
+            v = arg.id
+            # can the call be reached from the end of a batch without passing `v = True`?
+            target = cfg.stmt_node_containing(c)
+            bad = False
+            seen: set[int] = set()
+            work = [n.id for h in handlers for st in h.body[:1] for n in cfg.nodes_of(st)]
+            while work and target is not None:
+                i = work.pop()
+                if i in seen:
+                    continue
+                seen.add(i)
+                node = cfg.nodes[i]
+                st = node.ast
+                if node.kind not in ('test', 'dispatch') and isinstance(st, ast.Assign) and any(isinstance(t, ast.Name) and t.id == v for t in st.targets) and folder.fold(st.value, f.module, f.cls) is True:
+                    continue
+                if i == target.id:
+                    bad = True
+                    break
+                work += [s for s, _ in node.succ]
+            run.check(
+                not bad,
+                f.qualname,
+                'no generator is created after the end of a batch with the value `%s` had before it' % v,
+                f.loc(c),
+                'the generator created right after a batch ended still gets the flag of that batch: when that batch was the first of '
+                'the session (include_withdraw False), the withdraws queued meanwhile are left out of the next batch as well and the '
+                'peer keeps routes ExaBGP reports as withdrawn',
+            )
+        # the end of the batch turns the flag on, and the new value is what the caller gets back
+        sets = [n for h in handlers for n in ast.walk(h) if isinstance(n, ast.Assign) and folder.fold(n.value, f.module, f.cls) is True and isinstance(n.targets[0], ast.Name)]
+        rets = [r for r in walk_no_nested(f.node) if isinstance(r, ast.Return) and r.value is not None]
+        names = {n.targets[0].id for n in sets}
+        run.check(bool(sets) and all(names & {x.id for x in ast.walk(r.value) if isinstance(x, ast.Name)} for r in rets), f.qualname, 'the end of a batch sets the flag and the flag is returned', f.loc(sets[0]) if sets else f.loc(), 'after the first batch withdraws must be included')
+    # the session loop starts with False and only takes what the sender returns
+    for f in senders:
+        callers = [g for g in model.funcs.values() if any(isinstance(c, ast.Call) and f.qualname in model.callees(g.module, c) for c in walk_no_nested(g.node))]
+        for g in callers:
+            run.analysed(g)
+            ok = False
+            for n in walk_no_nested(g.node):
+                if isinstance(n, ast.Assign) and isinstance(n.targets[0], ast.Tuple) and any(isinstance(c, ast.Call) and f.qualname in model.callees(g.module, c) for c in ast.walk(n.value)):
+                    outs = [e.id for e in n.targets[0].elts if isinstance(e, ast.Name)]
+                    call = next(c for c in ast.walk(n.value) if isinstance(c, ast.Call) and f.qualname in model.callees(g.module, c))
+                    ins = [a.id for a in call.args if isinstance(a, ast.Name)]
+                    flag = [o for o in outs if o in ins]
+                    inits = [a for a in walk_no_nested(g.node) if isinstance(a, ast.Assign) and isinstance(a.targets[0], ast.Name) and a.targets[0].id in flag and isinstance(a.value, ast.Constant) and a.value.value is False]
+                    others = [a for a in walk_no_nested(g.node) if isinstance(a, ast.Assign) and isinstance(a.targets[0], ast.Name) and a.targets[0].id in {i.targets[0].id for i in inits} and a not in inits]
+                    ok = bool(inits) and not others
+            run.check(ok, g.qualname, 'the flag starts False and is only replaced by what the sender returns', g.loc(), 'the first batch of a session must not carry withdraws for routes the peer never had; every later one must')
